@@ -1142,6 +1142,78 @@ void c34_case(Ctx& c, Rng& r) {
 }
 HX_PROPERTY("C34", c34_case);
 
+// ------------------------------------------------------------------------------------ C39 (identical tick instants)
+// The open finding of C39 is that the rotated key depends on the rotating node's own clock reading, so two ends that
+// tick a millisecond apart diverge.  What does hold on the repaired tree - and what this part pins down - is the
+// remainder of the property: when both ends of every session rotate at identical instants (frozen virtual clock, every
+// node ticked at the same reading), each rotation leaves both ends of *every* session on one key, whatever the number
+// of sessions a node has and whenever they were established.
+void c39f_case(Ctx& c, Rng& r) {
+    Config cfg = base_config(r);
+    static const std::int64_t ivs[] = {5, 6, 10, 60, 300};
+    const std::int64_t iv = ivs[r.below(5)];
+    cfg.key_rotation_interval = seconds(iv);
+    cfg.handshake_cooldown = seconds(0);
+    cfg.handshake_pow_difficulty = 0;
+    cfg.cleanup_interval = seconds(1 + r.below(30));
+    const unsigned n = 2 + static_cast<unsigned>(r.below(3));   // node 0 is the hub, 1..n-1 its peers
+    std::vector<std::unique_ptr<Node>> nodes;
+    for (unsigned i = 0; i < n; ++i) {
+        Config ci = cfg;
+        ci.identity_seed = static_cast<std::uint32_t>(r.next());
+        nodes.push_back(std::make_unique<Node>(fx::peer_id_n(60 + i, 0xC3), ci));
+    }
+    auto tick_all = [&] { for (auto& nd : nodes) nd->tick(); };
+    std::map<unsigned, std::optional<std::array<std::uint8_t, 32>>> last_hub_key;
+    auto compare = [&](const char* when, std::uint64_t step) {
+        for (unsigned i = 1; i < n; ++i) {
+            const auto a = nodes[0]->session_key(nodes[i]->id());
+            const auto b = nodes[i]->session_key(nodes[0]->id());
+            if (!a && !b) continue;
+            c.note("rotation.identical-instant-comparisons");
+            if (a) { auto& prev = last_hub_key[i]; if (prev && *prev != *a) c.note("rotation.key-changes-observed"); prev = *a; }
+            if (!a || !b || *a != *b)
+                c.violation("C39:rotation:keys-diverge-although-both-ends-tick-at-identical-instants",
+                            J().kv("when", when).kv("step", step).kv("peer", i).kv("sessions_of_hub", n - 1).kv("interval_s", iv).kv("hub_has_key", a.has_value()).kv("peer_has_key", b.has_value()).str());
+        }
+    };
+    std::uint64_t sig = hx::mix(n, static_cast<std::uint64_t>(iv));
+    // sessions are established one after the other, up to 1.5 intervals apart, everybody ticking in between
+    for (unsigned i = 1; i < n; ++i) {
+        const auto wa = nodes[0]->generate_handshake_work(nodes[i]->id());
+        const auto wb = nodes[i]->generate_handshake_work(nodes[0]->id());
+        if (!wa || !wb) return;
+        const bool ok = nodes[0]->perform_handshake(nodes[i]->id(), nodes[i]->public_identity(), *wb) && nodes[i]->perform_handshake(nodes[0]->id(), nodes[0]->public_identity(), *wa);
+        if (!ok) { c.violation("harness:C39f:handshake-failed", "{}"); return; }
+        compare("after-handshake", i);
+        const auto gap_steps = r.below(4);
+        for (std::uint64_t g = 0; g < gap_steps; ++g) {
+            vclk::advance(nanoseconds(static_cast<std::int64_t>(r.below(static_cast<std::uint64_t>(iv) * NS / 2 + 1))));
+            tick_all();
+            compare("between-handshakes", g);
+        }
+    }
+    const auto nsteps = 6 + r.below(30);
+    for (std::uint64_t s = 0; s < nsteps; ++s) {
+        const auto k = r.below(6);
+        std::int64_t adv;
+        if (k == 0) adv = iv * NS;                                                   // exactly one interval
+        else if (k == 1) adv = iv * NS - 1;
+        else if (k == 2) adv = iv * NS + 1;
+        else if (k == 3) adv = static_cast<std::int64_t>(r.below(1000)) * 1000000;      // a tick period (0..1 s)
+        else if (k == 4) adv = static_cast<std::int64_t>(r.below(static_cast<std::uint64_t>(2 * iv) * NS));
+        else adv = NS;
+        vclk::advance(nanoseconds(adv));
+        tick_all();
+        c.note("rotation.identical-instant-ticks");
+        compare("after-tick", s);
+        sig = hx::mix(sig, k);
+    }
+    c.sig(sig);
+    if (c.cur_case % 199 == 0) c.sample(J().kv("mode", "identical tick instants").kv("nodes", n).kv("interval_s", iv).kv("ticks", nsteps).str());
+}
+HX_PROPERTY("C39f", c39f_case);
+
 struct Init { Init() { vclk::freeze(); fx::silence_cerr(); } } g_init;
 
 }  // namespace
